@@ -116,7 +116,10 @@ Closure(s, num) ==
              o == s.open[i]
              a == o.atom
              b == s.prev
-             ordOk == o.ord = 0 \/ s.pb = 0 \/ o.ord = s.pb
+             \* the bond symbols of the two digits must agree; a direction mark is a single bond ("C=1CCC/1" contradicts itself)
+             eo == IF o.ord # 0 THEN o.ord ELSE IF o.dir # 0 THEN 1 ELSE 0
+             ec == IF s.pb # 0 THEN s.pb ELSE IF s.pd # 0 THEN 1 ELSE 0
+             ordOk == eo = 0 \/ ec = 0 \/ eo = ec
              ord0 == IF o.ord # 0 THEN o.ord ELSE s.pb
              ord == IF ord0 # 0 THEN ord0 ELSE ImplicitOrd(s, a, b)
              dup == \E k \in 1..Len(s.bonds) : {s.bonds[k][1], s.bonds[k][2]} = {a, b}
